@@ -85,9 +85,10 @@ func VerifHarness_C03_replay() {
 	orig := make([]verifWire, H+1)
 	for i := 1; i <= H; i++ {
 		m := NewMessage()
-		// quick: the messages carrying a repeating group are the last of the history; thorough: anywhere
+		// the messages carrying a repeating group are the last of the history (anywhere multiplies the histories
+		// beyond the budget of either tier)
 		maxKind := 3
-		if verifTier() == 0 && i < H {
+		if i < H {
 			maxKind = 1
 		}
 		switch verifConc(ndInt("kind", 0, maxKind)) {
